@@ -41,6 +41,23 @@ def build_event(ev):
         _, name, alias, pred = ev
         phi = None if pred is None else T.hpl_predicate(gen.build(pred))
         return T.event(T.channel_name(name), None if alias is None else T.alias(alias), phi)
+    if ev[0] in ('orL', 'orB'):
+        # nestings only the public constructors can produce: left-nested ((a or b) or c), balanced ((a or b) or (c or d))
+        from hpl.ast import HplEventDisjunction
+        parts = [build_event(e) for e in ev[1:]]
+        if ev[0] == 'orL' or len(parts) < 4:
+            cur = parts[0]
+            for q in parts[1:]:
+                cur = HplEventDisjunction(cur, q)
+            return cur
+        half = len(parts) // 2
+
+        def chain(xs):
+            cur = xs[-1]
+            for q in reversed(xs[:-1]):
+                cur = HplEventDisjunction(q, cur)
+            return cur
+        return HplEventDisjunction(chain(parts[:half]), chain(parts[half:]))
     return T.event_disjunction([build_event(e) for e in ev[1:]])
 
 
@@ -89,7 +106,7 @@ def simple_events(ev) -> List[Any]:
     if ev[0] == 'ev':
         return [ev]
     out = []
-    for e in ev[1:]:
+    for e in ev[1:]:  # 'or' / 'orL' / 'orB': same alternatives in the same source order, different nesting
         out.extend(simple_events(e))
     return out
 
